@@ -23,6 +23,47 @@ TEXT = {
  'C09-B': ('wiring state initialised once per message (same root cause family as C06-B)', 'second subset of an uncompressed message whose template leaves 204 / 221 in force at its end'),
  'C10-A': ('subset() takes a slice min..max when len(indices) == span', 'index collection with a repeat and a gap of the same size, e.g. [0, 0, 2]'),
  'C10-B': ('encoder writes a single-subset compressed message through the uncompressed path', 'extract one subset from a compressed message'),
+ # ---- second round (C / D) ----
+ 'C01-C': ('nested 204YYY: only the innermost associated-field width is used instead of the sum', 'two 204YYY in force at once with a non-class-31 element in the inner scope'),
+ 'C01-D': ('per-coder cache of (10**scale, reference) keyed by descriptor id / width / operator state, stale across table versions', 'one Decoder decodes version X then version Y where an element keeps its width but changes scale or reference (013118, 014018, 015083)'),
+ 'C02-C': ('203 new reference value stored already multiplied by the 207 factor at definition time', '203YYY together with 207YYY, the 207 state differing between definition and use'),
+ 'C02-D': ('operator registers reset from a module-level table whose 204 entry is one shared list', 'a subset (or failed run) that ends with 204YYY not cancelled; then the next subset / message'),
+ 'C03-C': ('write_uint fast path for whole-octet widths masks the value instead of range checking', 'out-of-range value on a field whose effective width is 8/16/24/32 bits, uncompressed'),
+ 'C03-D': ('value rounded to scale + 202 offset before scaling, forgetting the 207 scale increment', 'uncompressed data, 207YYY in force, a value that uses the extra digits'),
+ 'C04-C': ('total length taken from a running count that omits the zero fill of a section declared longer', 'Encoder(ignore_declared_length=False) with surplus octets declared in a section'),
+ 'C04-D': ('recompute mode zeroes declared lengths of sections 1, 3, 4 but forgets section 2', 'default mode, section 2 present, its declared length different from the natural one'),
+ 'C05-C': ('compressed character column: an all-ones minimum is blanked like an all-zero one', 'compressed character column missing in every subset'),
+ 'C05-D': ('all-missing compressed column written with the all-ones value of the Table B width, not of the effective width', 'compressed, numeric element widened by 201 / 207 and missing in all subsets'),
+ 'C06-C': ('bitmap / back-reference registers kept across subsets when a 236000 bitmap is still defined', 'uncompressed, >= 2 subsets, uncancelled 236000 bitmap, replication in front with differing counts'),
+ 'C06-D': ('uncompressed subsets with the same flat descriptor sequence share the wired node list', 'two subsets with equal structure whose bitmaps select different elements (nested view only)'),
+ 'C07-C': ('back-reference boundary set only once; 235000 never resets it', 'a bitmap defined after 235000 in the same subset'),
+ 'C07-D': ('237255 also clears the back references', '236000 bitmap, 237255, then an operator that defines a new bitmap (no 235000)'),
+ 'C08-C': ('compiled marker statements record no state properties when no operator is in effect', 'marker under 201/202/207/208, later a marker after the operator was cancelled'),
+ 'C08-D': ('re-loaded compiled template resolves each descriptor id once (pseudo descriptors get the plain element)', 'JSON save/load of a template that uses an element first without and then with a 204 field / 206 skip'),
+ 'C09-C': ('flat text label padded with ljust(74) instead of cut to 74 characters', 'an element whose Table B name is longer than 67 characters (flat text -> flat JSON)'),
+ 'C09-D': ('wiring exempts only 031021 (not all of class 31) from the associated field', 'a bitmap or other class 31 element inside an open 204 scope'),
+ 'C10-C': ('selected indices iterated in set order', 'message with >= 9 subsets and a selection whose small ints wrap the hash slots'),
+ 'C10-D': ('subset() caches a skeleton whose inner lists are shared by all results of one message', 'two extractions from one message object, the first encoded after the second was taken'),
+ 'C11-C': ('start signature searched with a regex whose "." does not match 0x0A', 'a message whose 3-octet total length holds the byte 0x0A'),
+ 'C11-D': ('declared-length override for info-only messages applied only without a filter', 'filter expression together with info_only=True (API only)'),
+ 'C12-C': ('221YYY "data not present" branch taken for every F=0 descriptor, undefined ones included', 'undefined element of class 0 / 10-63 substituted inside a 221 scope'),
+ 'C12-D': ('after a failed message the scan skips len(serialized_bytes) of the info-only re-read', 'section 4 length raised by >= 5 octets, damaged message not the last, continue-on-error'),
+ 'C13-C': ('WMO Table D sequences shared between table groups of one master version', 'two groups with the same master version and different local tables; a sequence nested in a sequence reaching a re-defined element'),
+ 'C13-D': ('Table A/C/R of an evicted group handed to its replacement (wrong table_group_key)', 'table-group cache overflow; compiled templates then served for the wrong version'),
+ 'C14-C': ('fixed replication with count 1 spliced into the enclosing list', 'any 1XX001, e.g. 310081 of master versions 40 / 41'),
+ 'C14-D': ('flat_member_ids keeps a never-cleared set of expanded sequences as cycle guard', 'a sequence / template that reaches the same sub-sequence twice'),
+ 'C15-C': ('slice field validated with lstrip("-").isdigit() before int()', 'a field with two or more leading minus signs: [--1]'),
+ 'C15-D': ('IDs taken as one slice of the expression with rstrip(): blanks inside an ID stay', 'whitespace strictly inside an ID'),
+ 'C16-C': ('compressed-style evaluation (subset 0 layout) when section 3 shows no delayed replication', 'uncompressed, >= 2 subsets, delayed replication only inside a Table D sequence, differing counts'),
+ 'C16-D': ('all-digit path IDs compared numerically: marker nodes match their element id', 'bare ID of an element that marker operators (22X255) refer to'),
+ 'C17-C': ('section index parsed by a regex with a single digit', '%k.name with a multi-digit index (%10.length, %03.section_length)'),
+ 'C17-D': ('incomplete rename: info-only slice taken from the end of the previous message', 'info-only scan of a stream with bytes before / between messages'),
+ 'C18-C': ('default pragma dict moved to the class: all runners share the nesting level', 'two ScriptRunner objects with different levels, run after both were built'),
+ 'C18-D': ('a quote inside a comment opens a literal', 'a comment containing a quote character'),
+ 'C19-C': ('to_bytes() cached by stream length', 'to_bytes(), set_uint() of another value, to_bytes() again with no append in between'),
+ 'C19-D': ('octet-aligned read_bytes returns a slice of the input (short at the end)', 'a bytes read that starts on an octet boundary with fewer octets left than asked for'),
+ 'C20-C': ('only the table group of the definition message\'s own version is invalidated', 'another table group already loaded before the definition message, data message on that version'),
+ 'C20-D': ('NCEP replication-only repair done in place on a shared sequence object', 'a replication-only sequence used at two places of one template'),
 }
 sys.path.insert(0, HERE)
 rows = []
